@@ -224,6 +224,10 @@ NEEDS = {
     "C12-r6-2": "weak memory model only (loom): the slot release store in MessageBorrow::drop Relaxed instead of Release, with slot reuse",
     "C20-r6-1": "two keyed removals in a particular arrangement, e.g. insert 5, insert 9, insert 3, extract(9), extract(3) (sift_up compares key components instead of the UniqueKey)",
     "C20-r6-2": "exactly a multiple of 2^32 insertions between issuing a key and the reuse of its slot (epochs compared after `as u32`)",
+    "C02-r8-1": ">= 2 origins with events at the same time, an origin other than the smallest key having >= 2 of them (batch key stuck on the first origin)",
+    "C02-r8-2": "items pulled between two inserts of equal (time, origin) keys (tie-break epoch taken from the heap length)",
+    "C08-r8-1": "another thread scheduling through Scheduler::schedule while step() advances time (now read before the queue lock is taken)",
+    "C08-r8-2": "simulation time >= 2^31 s from the epoch (seconds stored in an AtomicI32)",
     "C07-r8-1": "a model mixing a non-keyed periodic self-event with another self-scheduled event for the same time (periodic one queued under the global origin)",
     "C07-r8-2": "a keyed one-shot and a non-keyed event from the global Scheduler for the same model and time (keyed one queued under the target's channel id)",
     "C10-r8-1": "keyed periodic occurrence sharing time and origin with an earlier action that cancels it (into_future passes a fresh key)",
